@@ -33,7 +33,17 @@ RULE = ("one case = one value x one route (pickle protocol 0..5, copy.copy, copy
         "is put back before every case), so every failing case is reproducible from the case alone and what one value leaves behind for the next is examined by the "
         "hist-* streams (and by the runner's reverse-order / ambient passes). Oracle for these: the copy is judged exactly as without "
         "a history, every call of the history must return what it returns in a fresh process (default name / offset / exception), and neither the original nor the copy may "
-        "change afterwards. non-trivial = distinct (value, route, history).")
+        "change afterwards. NATIVE-INPUT streams (values built from standard-library inputs, all 8 routes, both backends): ivn-* = Intervals whose operands are "
+        "datetime.datetime / datetime.date objects (tzinfo: zoneinfo.ZoneInfo, a pendulum Timezone carried by a native datetime, datetime.timezone, named FixedTimezone, none) "
+        "built by Interval(a, b, absolute), pendulum.interval(a, b, absolute), a.diff(<native>, absolute) (mixed pendulum / native), `b - a` with a native operand; "
+        "ivn-dst-span: both ends in one tz-database zone with an offset change BETWEEN them (1 day, 23 h, 25 h, a week, a month, a year apart, both directions, "
+        "forward / absolute); ivn-dst-edge: an operand inside the repeated / skipped wall interval (fold 0 and 1), the other less than the width / a day / a month away; "
+        "ivn-mixed, ivn-other (two zones, fixed offsets, UTC, naive, dates), ivn-pinned (Paris 2021-03-27/28 and 10-30/31 noon to noon, New York March, Lord Howe reversed); "
+        "dti-* = pendulum.instance(<datetime.datetime>) around gaps / overlaps and for every kind of tzinfo. For every Interval (iv-* and ivn-*) the compared accessors are "
+        "years months weeks remaining_days hours minutes remaining_seconds microseconds days seconds in_years in_months in_weeks in_days in_hours in_minutes in_seconds "
+        "total_seconds total_days in_words(en) repr as_timedelta, endpoints (fields fold offset instant zone), absolute, invert, native timedelta value, ==. The original of a "
+        "native-input case must show the stdlib's instant / offset of each operand in the pendulum zone of its tzinfo (UTC when naive) unless the wall time is skipped there "
+        "(which existing time replaces it is C02 / C11). non-trivial = distinct (value, route, history).")
 EXHAUSTIVE = {"quick": False, "thorough": False}
 TRUSTED = ["the pickle / copy / copyreg protocol of CPython and the native reducers of datetime.date / timedelta / tzinfo / zoneinfo.ZoneInfo as stated at the top of "
            "coq/Model/Pickle.v (the model interprets what __reduce_ex__ / __deepcopy__ hand to the protocol; the protocol itself is not modelled further)",
@@ -41,7 +51,9 @@ TRUSTED = ["the pickle / copy / copyreg protocol of CPython and the native reduc
            "its native-class table is compared with the live classes on every run (tables stream)",
            "Spec/Zone.v as the meaning of a Timezone's offset (validated by C02); Model/Duration.v as Duration.__new__ (validated by C09 and again here)",
            "Model/PickleHistory.v is a hand model of pendulum.tz.fixed_timezone / pendulum.timezone (the per-offset cache), tied to /repo by the hist-* correspondence only "
-           "(no source pin); histories that set the local timezone or the locale, and hist cases whose value is a Date / Duration / Interval, are oracle-only"]
+           "(no source pin); histories that set the local timezone or the locale, and hist cases whose value is a Date / Duration / Interval, are oracle-only",
+           "Model/PickleNative.v is a hand model of DateTime.instance / _safe_timezone and of Interval.__new__ / __init__ on standard-library operands (over Model/TzConvert.create, "
+           "validated by C02), tied to /repo by the ivn-* / dti-* correspondence only"]
 ASSUMPTIONS = ["CPython with the C datetime module (timedelta.__reduce__ uses the native fields, not Duration's overriding attributes)",
                "aware DateTime cases stay 3 days away from year 1 / 9999 (utcoffset arithmetic would overflow); naive ones cover the full range",
                "the Duration deepcopy theorem holds on C09's exactness domain D9; its float premise float_split_exact_on_D9 is proved (Proofs/FloatRoundTripC09.v) and "
@@ -261,9 +273,113 @@ def cases(tier, seed):
         (k1, v1), (k2, v2) = (vals[i - 1], vals[i]) if i % 2 else (vals[i], vals[i - 1])
         _hist(hist, "hist-adjacent", [["copy", SAME, k1, v1]], [], [], k2, v2)
     out += hist
+    # --- values BUILT FROM STANDARD-LIBRARY (native) inputs: Interval(<datetime.datetime / date>), pendulum.interval(...), mixed Intervals
+    #     (a.diff(<native>), Interval(<native>, <pendulum>)), `b - a` with a native operand, pendulum.instance(<datetime.datetime>).  Own generator.
+    out += _native_cases(random.Random(seed * 15485863 + 1408), thorough, zs, lo, hi)
     # --- generated tables vs the live classes
     for i in range(len(CLASSES)):
         out.append({"stream": "tables", "fn": "tables", "args": [i]})
+    return out
+
+
+# how an Interval of the ivn-* streams is built from its two operands a, b (each pendulum or standard-library, see endpoint tags 0..3)
+HOW_CTOR, HOW_FACTORY, HOW_DIFF, HOW_SUB = 0, 1, 2, 3      # Interval(a, b, absolute) | pendulum.interval(a, b, absolute) | a.diff(b, absolute) | b - a
+NATIVE_STEPS = [86400, -86400, 3600, 82800, 90000, 7 * 86400, 30 * 86400, -31 * 86400, 365 * 86400, 1800, 86400 + 5025]
+
+
+def _nat(e):
+    """The same endpoint as a standard-library value: tag 1 -> 2 (datetime.datetime), 0 -> 3 (datetime.date)."""
+    return [2] + e[1:] if e[0] == 1 else [3] + e[1:]
+
+
+def _native_cases(rn, thorough, zs, lo, hi):
+    out = []
+    lo2, hi2 = lo + 800 * T.US_DAY, hi - 800 * T.US_DAY
+    std = [["S", 0], ["S", 3600], ["S", -3661], ["S", 20700], ["S", 86399]]
+    pairs = []                       # (stream, how, absolute flags, e1, e2)
+
+    def both(stream, e1, e2, hows=(HOW_CTOR, HOW_FACTORY)):
+        for how in hows:
+            pairs.append((stream, how, (0, 1), _nat(e1), _nat(e2)))
+
+    # (a) both endpoints in ONE tz-database zone with an offset change between / at them: one calendar day, 23 / 25 h, a week, a month, a year apart
+    znames = list(zs) if thorough else rn.sample(list(zs), 10)
+    for name in znames + ["Europe/Paris", "America/New_York", "Australia/Lord_Howe"]:
+        trs = T.transition_probes(name, rn, per_zone=(6 if thorough else 2))
+        if not thorough and len(trs) > 2:
+            trs = rn.sample(trs, 2)
+        for ti, (tt, o_pre, o_post) in enumerate(trs):
+            a = (tt + T.EPOCH_S + min(o_pre, o_post)) * T.MEG
+            b = (tt + T.EPOCH_S + max(o_pre, o_post)) * T.MEG
+            if not lo2 < a < hi2:
+                continue
+            kinds = [["Z", name], name] if thorough else [rn.choice((["Z", name], ["Z", name], name))]      # zoneinfo.ZoneInfo(key) / a pendulum Timezone carried by a native datetime
+            for tzs in kinds:
+                # well before the change -> after it (the interval CONTAINS the transition)
+                W1 = a - rn.randrange(3600, 20 * 3600) * T.MEG - rn.choice((0, 0, 250001))
+                step = rn.choice(NATIVE_STEPS)
+                W2 = W1 + abs(step) * T.MEG
+                if W2 <= b:
+                    W2 += 86400 * T.MEG
+                e1, e2 = [1, W1, 0, tzs], [1, W2, 0, tzs]
+                if step < 0:
+                    e1, e2 = e2, e1
+                both("ivn-dst-span", e1, e2)
+                # an endpoint INSIDE the repeated / skipped wall interval (fold 0 and 1), the other one less than a gap width / a day / a month away
+                Wm = (a + b) // 2 + rn.choice((0, 250001))
+                for f in (0, 1):
+                    Wo = Wm + rn.choice((-1, 1)) * rn.choice((rn.randrange(1, max(2, (b - a) // T.MEG)) * T.MEG, 86400 * T.MEG, 30 * 86400 * T.MEG))
+                    e1, e2 = [1, Wm, f, tzs], [1, Wo, rn.randrange(2), tzs]
+                    if rn.random() < 0.5:
+                        e1, e2 = e2, e1
+                    both("ivn-dst-edge", e1, e2, hows=(HOW_CTOR,) if f else (HOW_CTOR, HOW_FACTORY))
+            if ti and not thorough:
+                continue
+            # mixed: pendulum start, native end (DateTime.diff(<native>)) and the other way round; native operands of `-`
+            W1 = a - rn.randrange(3600, 20 * 3600) * T.MEG
+            W2 = W1 + rn.choice((86400, 30 * 86400, 7 * 86400)) * T.MEG
+            e1, e2 = [1, W1, 0, name], [1, W2, 0, ["Z", name]]
+            pairs.append(("ivn-mixed", HOW_DIFF, (0, 1), e1, _nat(e2)))
+            pairs.append(("ivn-mixed", HOW_CTOR, (0, 1), _nat([1, W1, 0, ["Z", name]]), [1, W2, 0, name]))
+            pairs.append(("ivn-mixed", HOW_SUB, (0,), _nat([1, W1, 0, ["Z", name]]), [1, W2, 0, name]))
+            pairs.append(("ivn-mixed", HOW_SUB, (0,), [1, W2, 0, name], _nat([1, W1, 0, ["Z", name]])))
+            pairs.append(("ivn-mixed", HOW_DIFF, (0, 1), [1, W2, 0, name], [1, W1, 0, name]))
+            pairs.append(("ivn-mixed", HOW_SUB, (0,), [1, W1, 0, name], [1, W2, 0, name]))
+    # (b) two zones, fixed offsets, UTC, naive values, dates
+    for _ in range(60 if thorough else 6):
+        W1 = rn.randrange(lo2, hi2)
+        W2 = W1 + rn.randrange(-400 * T.US_DAY, 400 * T.US_DAY)
+        z1, z2 = zs[rn.randrange(len(zs))], zs[rn.randrange(len(zs))]
+        both("ivn-other", [1, W1, 0, ["Z", z1]], [1, W2, 0, ["Z", z2]], hows=(HOW_CTOR,))
+        both("ivn-other", [1, W1, 0, rn.choice(std)], [1, W2, 0, rn.choice(std)], hows=(HOW_FACTORY,))
+        both("ivn-other", [1, W1, 0, ["S", 0]], [1, W2, 0, ["Z", z2]], hows=(HOW_CTOR,))
+        both("ivn-other", [1, W1, 0, None], [1, W2, 0, None], hows=(HOW_FACTORY,))
+        both("ivn-other", [1, W1, 0, ["F", 19800, "IST"]], [1, W2, 0, ["F", 19800, "IST"]], hows=(HOW_CTOR,))
+        both("ivn-other", [0, W1 // T.US_DAY + 1], [0, W2 // T.US_DAY + 1], hows=(HOW_CTOR, HOW_FACTORY))
+    # pinned: one calendar day across the Paris spring-forward / fall-back nights of 2021, a month in New York, Lord Howe's half hour, reversed
+    def w(y, mo, d, h=0, mi=0, s=0, us=0):
+        return T.wall_of(_dt.datetime(y, mo, d, h, mi, s, us))
+    for tzs, x1, x2 in ((["Z", "Europe/Paris"], w(2021, 3, 27, 12), w(2021, 3, 28, 12)), (["Z", "Europe/Paris"], w(2021, 10, 30, 12), w(2021, 10, 31, 12)),
+                        (["Z", "America/New_York"], w(2021, 3, 1, 0, 30), w(2021, 4, 1, 0, 30)),
+                        (["Z", "Australia/Lord_Howe"], w(2021, 4, 10, 1, 45, 30, 250000), w(2021, 3, 30, 1, 15)),
+                        ("Europe/Paris", w(2021, 3, 27, 12), w(2021, 3, 28, 12))):
+        both("ivn-pinned", [1, x1, 0, tzs], [1, x2, 0, tzs])
+    for stream, how, abs_, e1, e2 in pairs:
+        for ab in abs_:
+            _routes(out, stream, "ivn", [how, ab, e1, e2])
+    # (c) pendulum.instance(<datetime.datetime>) around gaps / overlaps (fold 0 and 1), random walls, every kind of tzinfo incl. none
+    for name in (list(zs) if thorough else rn.sample(list(zs), 8)):
+        for (tt, o_pre, o_post) in T.transition_probes(name, rn, per_zone=(4 if thorough else 1))[:(99 if thorough else 3)]:
+            a = (tt + T.EPOCH_S + min(o_pre, o_post)) * T.MEG
+            b = (tt + T.EPOCH_S + max(o_pre, o_post)) * T.MEG
+            for W in ((a + b) // 2 + 250001, a - 1):
+                if lo2 < W < hi2:
+                    for f in (0, 1):
+                        _routes(out, "dti-zoneinfo", "dti", [W, f, rn.choice((["Z", name], name))])
+    for tzs in std + [None, ["F", 19800, "IST"], ["F", -3600, None], "UTC", ["Z", "UTC"]]:
+        W = rn.randrange(lo2, hi2)
+        for f in (0, 1):
+            _routes(out, "dti-other", "dti", [W, f, tzs])
     return out
 
 
@@ -509,7 +625,9 @@ def _iv_core(i):
 
 def _iv_extra(i):
     return [i.years, i.months, i.weeks, i.remaining_days, i.hours, i.minutes, i.remaining_seconds, i.microseconds, i.days, i.in_days(), i.in_months(),
-            i.total_seconds().hex(), repr(i), type(i.start).__name__, type(i.end).__name__]
+            i.total_seconds().hex(), repr(i), type(i.start).__name__, type(i.end).__name__,
+            i.in_years(), i.in_weeks(), i.in_hours(), i.in_minutes(), i.in_seconds(), i.seconds, i.total_days().hex(), i.in_words(locale="en"),
+            str(i.as_timedelta()), str(i.as_duration() == i.as_timedelta())]
 
 
 def _tz_extra(tz):
@@ -535,9 +653,34 @@ def _mk_ep(e):
     return pendulum.DateTime(y, mo, d, h, mi, s, us, tzinfo=_mk_tz(tzs), fold=f)
 
 
+def _mk_any_ep(e):
+    """Endpoint tags 0 / 1: pendulum Date / DateTime; 3 / 2: the standard-library date / datetime with the same fields, fold and tzinfo."""
+    if e[0] in (0, 1):
+        return _mk_ep(e)
+    if e[0] == 3:
+        return _dt.date.fromordinal(e[1])
+    _, W, f, tzs = e
+    return T.native(W, f, _mk_tz(tzs))
+
+
 def _build(fn, a):
     import pendulum
     from pendulum.duration import AbsoluteDuration
+    if fn == "ivn":
+        how, ab, e1, e2 = a
+        x, y = _mk_any_ep(e1), _mk_any_ep(e2)
+        if how == HOW_CTOR:
+            v = pendulum.Interval(x, y, absolute=bool(ab))
+        elif how == HOW_FACTORY:
+            v = pendulum.interval(x, y, absolute=bool(ab))
+        elif how == HOW_DIFF:
+            v = x.diff(y, bool(ab))
+        else:
+            v = y - x
+        return v, _iv_core, _iv_extra, True
+    if fn == "dti":
+        W, f, tzs = a
+        return pendulum.instance(T.native(W, f, _mk_tz(tzs))), _dt_core, _dt_extra, True
     if fn == "dt":
         return _mk_ep([1] + a), _dt_core, _dt_extra, True
     if fn == "date":
@@ -779,11 +922,11 @@ def _is_foreign(tzs):
 
 
 def _ep_enc(e, span):
-    if e[0] == 0:
-        return [0, e[1]]
-    _, W, f, tzs = e
+    if e[0] in (0, 3):
+        return [e[0], e[1]]
+    tag, W, f, tzs = e
     lo, hi = span.get(_zone_of(tzs), (W, W))
-    return [1, W, f] + _tz_enc(tzs, lo, hi)
+    return [tag, W, f] + _tz_enc(tzs, lo, hi)
 
 
 HIST_KIND = {"dt": 1, "time": 3, "tz": 6}
@@ -853,6 +996,18 @@ def model_calls(c, backend):
         body = [ab] + _ep_enc(e1, span) + _ep_enc(e2, span)
     elif fn == "tz":
         body = _tz_enc(v[0], 735000 * T.US_DAY, 735000 * T.US_DAY)
+    elif fn == "ivn":
+        how, ab, e1, e2 = v
+        span = {}
+        for e in (e1, e2):
+            if e[0] in (1, 2) and _zone_of(e[3]) is not None:
+                zn = _zone_of(e[3])
+                lo, hi = span.get(zn, (e[1], e[1]))
+                span[zn] = (min(lo, e[1]), max(hi, e[1]))
+        body = [key_index("UTC"), 1 if how == HOW_SUB else 0, ab] + _ep_enc(e1, span) + _ep_enc(e2, span)
+    elif fn == "dti":
+        W, f, tzs = v
+        body = [key_index("UTC"), W, f] + _tz_enc(tzs, W, W)
     else:
         return None
     return [(fn, [8] + body), (fn, [r] + body)]
@@ -935,6 +1090,111 @@ def _ref_ep_core(e):
         d = _dt.date.fromordinal(e[1])
         return [0, d.year, d.month, d.day]
     return [1] + _ref_dt_core(e[1], e[2], e[3])
+
+
+def _conv_spec(tzs):
+    """The pendulum zone pendulum.instance gives a standard-library datetime with this tzinfo (DateTime.instance: tz = dt.tzinfo or UTC)."""
+    if tzs is None:
+        return "UTC"
+    if isinstance(tzs, str):
+        return tzs
+    if tzs[0] == "Z":
+        return tzs[1]
+    if tzs[0] == "S":
+        return "UTC" if tzs[1] == 0 else ["F", tzs[1], None]
+    return tzs
+
+
+def _ref_instance_core(W, f, tzs):
+    """What the standard library says the value `datetime(fields of W, tzinfo, fold)` is once it lives in the pendulum zone _conv_spec(tzs):
+    the same INSTANT (a naive value read as UTC), rendered by that zone (fields, offset); returns (core without fold, fold or None when the
+    wall time is not repeated - the fold attribute of an unambiguous value is not part of what instance() promises)."""
+    spec = _conv_spec(tzs)
+    src = _ref_tz(tzs) if tzs is not None else _dt.timezone.utc
+    n = T.native(W, f, src)
+    o = T.off_s(n)
+    inst = W - o * T.MEG
+    dst = _ref_tz(spec)
+    r = T.native(inst, 0, _dt.timezone.utc).astimezone(dst)
+    Wr = T.wall_of(r)
+    amb = _offsets_differ(Wr, spec) and T.off_s(T.native(Wr, 1, dst)) < T.off_s(T.native(Wr, 0, dst))
+    return list(T.fields_of(Wr)) + [1, T.off_s(r), inst], (r.fold if amb else None)
+
+
+def _skipped(W, tzs):
+    """The wall time does not exist in the (tz-database) zone: which existing time pendulum.instance / DateTime.create substitutes for it is the
+    subject of C02 / C11, not of this property - the original is then only required to be an aware DateTime of that zone."""
+    if _zone_of(tzs) is None:
+        return False
+    tz = zoneinfo.ZoneInfo(_zone_of(tzs))
+    return T.off_s(T.native(W, 0, tz)) < T.off_s(T.native(W, 1, tz))
+
+
+def _ref_any_ep(e):
+    """(expected core without the fold entry - None: any DateTime -, expected fold or None, expected zone observation or None) of an endpoint of an ivn case."""
+    if e[0] in (0, 3):
+        d = _dt.date.fromordinal(e[1])
+        return [0, d.year, d.month, d.day], None, None
+    if e[0] == 1:
+        c = _ref_dt_core(e[1], e[2], e[3])
+        return [1] + c[:7] + c[8:], c[7], _ref_tz_obs(e[3])
+    if _skipped(e[1], e[3]):
+        return None, None, _ref_tz_obs(_conv_spec(e[3]))
+    c, fold = _ref_instance_core(e[1], e[2], e[3])
+    return [1] + c, fold, _ref_tz_obs(_conv_spec(e[3]))
+
+
+def _ref_native_inst(e, g):
+    """UTC instant of an operand of an ivn case as Interval.__new__ sees it: the stdlib reading of a native operand, the observed instant of a pendulum one."""
+    if e[0] != 2:
+        return g[11]
+    src = _ref_tz(e[3]) if e[3] is not None else _dt.timezone.utc
+    return e[1] - T.off_s(T.native(e[1], e[2], src)) * T.MEG
+
+
+# entries of _iv_extra that come from Interval._delta (precise_diff): years months weeks remaining_days hours minutes in_days in_months in_years in_weeks in_words
+PDIFF_EXTRA = (0, 1, 2, 3, 4, 5, 9, 10, 15, 16, 22)
+
+
+def _py_native_pdiff_region(specs, g1, g2):
+    """Both endpoints DateTimes, precise_diff takes its UTC-normalising branch (different zone names or the same local date) and for some NATIVE operand
+    the zone's offset at (instant - offset) is not the operand's offset (so pendulum's `d - d.utcoffset()` does not show the UTC fields)."""
+    if g1[0] != 1 or g2[0] != 1 or g1[9] != 1 or g2[9] != 1:
+        return False
+    if g1[12:] == g2[12:] and g1[1:4] != g2[1:4]:
+        return False
+    for e, g in zip(specs, (g1, g2)):
+        if e[0] != 2:
+            continue
+        zn = _zone_of(_conv_spec(e[3]))
+        if zn is None:
+            continue
+        o = g[10]
+        shifted = T.native(g[11] - o * T.MEG, 0, _dt.timezone.utc).astimezone(zoneinfo.ZoneInfo(zn))
+        if T.off_s(shifted) != o:
+            return True
+    return False
+
+
+def _has_skipped_native(*eps):
+    return any(e[0] == 2 and _skipped(e[1], e[3]) for e in eps)
+
+
+def _split_eps(got):
+    """The two endpoint observations of an Interval core (after its 5 leading entries)."""
+    n1 = 12 + _tzlen(got, 12) if got[0] == 1 else 4
+    return got[:n1], got[n1:]
+
+
+def _ep_matches(g, e):
+    core, fold, tzobs = _ref_any_ep(e)
+    if core is None:
+        return g[0] == 1 and g[9] == 1 and g[12:] == tzobs
+    if g[0] != core[0]:
+        return False
+    if g[0] == 0:
+        return g == core
+    return g[:8] + g[9:12] == core and (fold is None or g[8] == fold) and g[12:] == tzobs
 
 
 def _ref_td(v):
@@ -1063,6 +1323,28 @@ def _diffs(c, r, backend="py"):
         g = (_cut(got[:n1]), _cut(got[n1:]))
         if g not in ((_cut(e1), _cut(e2)), (_cut(e2), _cut(e1))) or (not ab and g != (_cut(e1), _cut(e2))):
             why.append(f"original Interval endpoints {g} are not the given ones {(e1, e2)}")
+    if fn == "ivn":
+        how, ab, e1, e2 = a[1:]
+        g1, g2 = _split_eps(co[5:])
+        fwd = _ep_matches(g1, e1) and _ep_matches(g2, e2)
+        if not (fwd or (ab and _ep_matches(g1, e2) and _ep_matches(g2, e1))):
+            why.append(f"original Interval endpoints {(g1, g2)} are not the given operands {(_ref_any_ep(e1), _ref_any_ep(e2))} (standard-library operands: same "
+                       "instant in the pendulum zone of their tzinfo, UTC when naive)")
+        # the timedelta value is the elapsed time between the two operands (sign: see C06; here its magnitude)
+        if g1[0] == 1 and g2[0] == 1 and not _has_skipped_native(e1, e2):
+            N = (co[2] * 86400 + co[3]) * T.MEG + co[4]
+            el = _ref_any_ep(e2)[0][-1] - _ref_any_ep(e1)[0][-1]
+            if abs(N) != abs(el) and abs(el) < 2 ** 53:
+                why.append(f"original Interval has timedelta value {N} us, its operands are {el} us apart")
+    if fn == "dti" and _skipped(a[1], a[3]):
+        if co[8] != 1 or co[11:] != _ref_tz_obs(_conv_spec(a[3])):
+            why.append(f"pendulum.instance of a skipped wall time: {co} is not an aware DateTime of the zone {_conv_spec(a[3])}")
+    elif fn == "dti":
+        core, fold = _ref_instance_core(a[1], a[2], a[3])
+        if co[:7] + co[8:11] != core or (fold is not None and co[7] != fold):
+            why.append(f"pendulum.instance gives {co[:11]}, the stdlib value is {core} (fold {fold}) in the zone of its tzinfo")
+        if co[11:] != _ref_tz_obs(_conv_spec(a[3])):
+            why.append(f"pendulum.instance: timezone observes {co[11:]}, expected {_ref_tz_obs(_conv_spec(a[3]))}")
     if st == 1:
         why.append(f"{rn} raised {ec[0]}")
         return why
@@ -1102,6 +1384,49 @@ def known(c, backend, r):
         return known(_hist_inner(c), backend, r[:7])
     route = a[0]
     st, ty, eq, co, cc, eo, ec = r
+    if fn == "dti":
+        # pendulum.instance(<native>) IS a DateTime in the zone _conv_spec(tzinfo): judged as that DateTime (fields and fold as the original shows them)
+        try:
+            W = T.wall_of(_dt.datetime(*co[:7]))
+        except Exception:  # noqa
+            return None
+        return known({"stream": c.get("stream"), "fn": "dt", "args": [route, W, co[7], _conv_spec(a[3])]}, backend, r)
+    if fn == "ivn":
+        # an Interval of native operands IS the Interval of its converted endpoints: judged as that Interval (endpoints as the original shows them)
+        how, ab, e1, e2 = a[1:]
+        g1, g2 = _split_eps(co[5:])
+        if _ep_matches(g1, e1) and _ep_matches(g2, e2):
+            specs = (e1, e2)
+        elif ab and _ep_matches(g1, e2) and _ep_matches(g2, e1):
+            specs = (e2, e1)
+        else:
+            return None
+        if how != HOW_SUB and _has_skipped_native(e1, e2) and st == 0 and ty and eq:
+            # Interval.__new__ takes the timedelta value from the standard-library operands AS GIVEN (a skipped wall time read with the stdlib's
+            # PEP 495 offset), __init__ keeps pendulum.instance(operand), which is ANOTHER instant for a skipped wall time: the original's value is not
+            # end - start; every copy is rebuilt from start / end and has end - start (endpoints, flags, == all the same)
+            h1, h2 = _split_eps(cc[5:])
+            same_eps = all(x[:8] + x[9:] == y[:8] + y[9:] and (x[8] == y[8] or (route <= 5 and y[8] == 0)) for x, y in zip((g1, g2), (h1, h2)))
+            No = (co[2] * 86400 + co[3]) * T.MEG + co[4]
+            Nc = (cc[2] * 86400 + cc[3]) * T.MEG + cc[4]
+            u1, u2 = _ref_native_inst(specs[0], g1), _ref_native_inst(specs[1], g2)
+            if same_eps and cc[:2] == co[:2] and abs(No) == abs(u2 - u1) and No != Nc and abs(Nc) == abs(h2[11] - h1[11]):
+                return "interval-native-skipped-operand"
+            return None
+        if backend == "py" and how != HOW_SUB and st == 0 and ty and eq and cc == co and _py_native_pdiff_region(specs, g1, g2) \
+                and len(eo) == len(ec) and all(x == y for i, (x, y) in enumerate(zip(eo, ec)) if i not in PDIFF_EXTRA):
+            # pure-Python precise_diff receives the pendulum.instance() of a NATIVE operand as it is (pendulum operands are rebuilt as native
+            # datetimes first) and normalises with `d - d.utcoffset()`, which is pendulum arithmetic IN THE ZONE for a DateTime (wall clock for a native
+            # one): the fields it then reads are those of another wall time whenever the zone's offset at (instant - offset) differs.  Only the
+            # decomposed components differ between original and copy (copies are rebuilt from pendulum endpoints: native path)
+            return "interval-native-operand-components-py"
+        eps = []
+        for g, e in zip((g1, g2), specs):
+            if g[0] == 0:
+                eps.append([0, _dt.date(*g[1:4]).toordinal()])
+            else:
+                eps.append([1, T.wall_of(_dt.datetime(*g[1:8])), g[8], e[3] if e[0] == 1 else _conv_spec(e[3])])
+        return known({"stream": c.get("stream"), "fn": "iv", "args": [route, ab] + eps}, backend, r)
     if fn == "dt":
         W, f, tzs = a[1:]
         # (repaired: `fix: DateTime.__deepcopy__ keeps a tzinfo that is not a pendulum timezone`) __deepcopy__ passed tzinfo=self.tz, which is
@@ -1252,5 +1577,15 @@ TRUSTED = list(TRUSTED) + [
     "outside that range default_name, and the other hand-transcribed bodies of Model/Pickle.v (interval_new = Interval.__new__ / __init__, pendulum_tz = DateTime.timezone / tz, Timezone.__new__ "
     "forwarding its key), stay hand-written + pinned by text in g60_pickle.py; Duration.__new__ / AbsoluteDuration.__new__ are Model/Duration.v, proved equal to the translated code in C09",
 ]
+LEVEL_TEXT = LEVEL_TEXT + (" Intervals built from STANDARD-LIBRARY operands (Model/PickleNative.v: Interval.__new__ on the operands as given, __init__ on "
+                           "pendulum.instance(operand) = _safe_timezone + DateTime.create): whenever the conversion keeps order and elapsed time of the operands the value is the "
+                           "Interval of the converted operands and copy / deepcopy / (fold 0) pickle return it unchanged (roundtrip_interval_native_partial, with a satisfiability "
+                           "example across the Paris spring-forward night); REFUTED for a skipped wall time (roundtrip_interval_native_refuted: 2013-03-31T02:30 Europe/Paris as a "
+                           "native datetime gives a 23 h Interval whose endpoints are 24 h apart, every copy is the 24 h Interval - finding interval-native-skipped-operand). "
+                           "The decomposed components of an Interval (years .. minutes, in_words: precise_diff) are outside the Coq model of C14 and compared by the oracle on every "
+                           "stream; there the native-input streams exposed interval-native-operand-components-py (pure-Python precise_diff receives pendulum DateTimes for native operands).")
+LEVEL_NOTE = LEVEL_NOTE + (" Native inputs: the ivn (Interval of native / mixed operands) and dti (pendulum.instance) entries of DispatchC14 are INSIDE the model and compared with the "
+                           "implementation over all 8 routes on both backends (Model/PickleNative.v is hand-written over Model/TzConvert.create, no source pin of its own: tied by the "
+                           "ivn-* / dti-* correspondence); Interval components from precise_diff are oracle-only.")
 LEVEL_NOTE = LEVEL_NOTE + (" Method bodies: the argument lists are generated data; the default name of FixedTimezone.__init__ is translated on every run and proved equal to the model for |offset| < 24 h "
                            "(model_is_code_fixed_timezone_default_name; self-tested by mutation); Interval.__new__ / __init__, DateTime.timezone / tz and Timezone.__new__ stay hand-transcribed and pinned by text.")
